@@ -89,6 +89,18 @@ Definition wmsg (seed blk : N) (k : nat) : bytes :=
 
 Definition wmodel (seed blk : N) (evs : list wev) : wst := wrun (wmsg seed blk) 0 evs.
 
+(* self-describing websocket feed messages of any size: "WB", sequence number and length (4 bytes each, big
+   endian), then a ramp of bytes mod 251 that starts at a value derived from both; messages shorter than the
+   10-byte header are the ramp alone.  Cheap enough for megabyte messages. *)
+Fixpoint ramp_go (x : N) (n : nat) : bytes :=
+  match n with O => [] | S k => x :: ramp_go (if x =? 250 then 0 else x + 1) k end.
+Definition be4 (k : N) : bytes :=
+  [N.land (N.shiftr k 24) 255; N.land (N.shiftr k 16) 255; N.land (N.shiftr k 8) 255; N.land k 255].
+Definition bmsg (sq len : N) : bytes :=
+  let x := (sq * 31 + len) mod 251 in
+  if len <? 10 then ramp_go x (N.to_nat len)
+  else [87; 66] ++ be4 sq ++ be4 len ++ ramp_go x (N.to_nat (len - 10)).
+
 Definition case_ok (c : case) : bool :=
   match c with
   | CS maxf caps evs tap reads =>
